@@ -6,6 +6,7 @@
    the fault engine evaluates the property on the real store. *)
 From Coq Require Import List NArith Bool.
 From Feox Require Import Model.Device Proofs.CrashProofs.
+From Feox Require Model.FreeSpace Proofs.FreeSpaceProofs Model.FailPath Proofs.FailPathProofs.
 Import ListNotations.
 Local Open Scope N_scope.
 
@@ -88,7 +89,16 @@ Theorem scrub_of_a_failed_batch_is_restartable :
   recover d1 = Some seen /\
   (forall d', crash_image (replay_stage1 d1 exts) d' -> recover d' = Some seen) /\
   (forall d', crash_image (replay_stage2 d1 (negb c) (g + 1) exts) d' -> recover d' = Some seen) /\
-  recover (replay_done d1 (negb c) (g + 1) exts) = Some seen.
+  recover (replay_done d1 (negb c) (g + 1) exts) = Some seen
+
+(* ---- the failure-handling code itself (Model/FailPath.v: process_write_batch,
+   failed_batch_outcome, cleanup_failed_allocations, release_scrubbed_allocations,
+   release_allocations, quarantine, poison, over the real allocator model); every fault oracle,
+   i.e. every choice of failing device calls, every sequence of inserts and flushes ---- *)
+
+(* a flush answers Ok only when the device is not poisoned and every entry queued before it has
+   been published; whatever it answers, no entry is lost (all published, or all still queued in
+   order); a poisoned device never answers Ok again; a quarantined reservation stays with its entry *).
 Proof. exact scrub_preserves_contents. Qed.
 Check scrub_of_a_failed_batch_is_restartable :
   forall d c g exts ws,
@@ -100,5 +110,77 @@ Check scrub_of_a_failed_batch_is_restartable :
   recover d1 = Some seen /\
   (forall d', crash_image (replay_stage1 d1 exts) d' -> recover d' = Some seen) /\
   (forall d', crash_image (replay_stage2 d1 (negb c) (g + 1) exts) d' -> recover d' = Some seen) /\
-  recover (replay_done d1 (negb c) (g + 1) exts) = Some seen.
+  recover (replay_done d1 (negb c) (g + 1) exts) = Some seen
+
+(* ---- the failure-handling code itself (Model/FailPath.v: process_write_batch,
+   failed_batch_outcome, cleanup_failed_allocations, release_scrubbed_allocations,
+   release_allocations, quarantine, poison, over the real allocator model); every fault oracle,
+   i.e. every choice of failing device calls, every sequence of inserts and flushes ---- *)
+
+(* a flush answers Ok only when the device is not poisoned and every entry queued before it has
+   been published; whatever it answers, no entry is lost (all published, or all still queued in
+   order); a poisoned device never answers Ok again; a quarantined reservation stays with its entry *).
 Print Assumptions scrub_of_a_failed_batch_is_restartable.
+
+Theorem flush_is_honest_under_any_failures :
+  forall fault d f cs,
+  d < FreeSpace.U64 -> FreeSpace.initialize d = FreeSpace.FOk f ->
+  let st := FailPathProofs.fcalls fault (FailPath.finit f) cs in
+  forall st' r, FailPath.flush fault st = (st', r) ->
+  (r = FailPath.ROk -> FailPath.f_poison st' = false /\ FailPath.f_queue st' = []) /\
+  ((FailPath.f_queue st' = [] /\ exists pub, FailPath.f_durable st' = pub ++ FailPath.f_durable st /\
+      map fst pub = map FailPath.pe_id (FailPath.f_queue st)) \/
+   (r <> FailPath.ROk /\ FailPath.f_durable st' = FailPath.f_durable st /\
+      map FailPath.pe_id (FailPath.f_queue st') = map FailPath.pe_id (FailPath.f_queue st))) /\
+  (FailPath.f_poison st = true -> FailPath.f_poison st' = true /\ r <> FailPath.ROk) /\
+  (forall e, In e (FailPath.f_queue st) -> FailPath.pe_quar e = true -> FailPath.f_queue st' <> [] -> In e (FailPath.f_queue st'))
+
+(* extents that may hold bytes of a failed batch and have not been scrubbed are never free, hence
+   never handed to another record: a reservation is given back only clean or scrubbed *).
+Proof. exact FailPathProofs.flush_is_honest. Qed.
+Check flush_is_honest_under_any_failures :
+  forall fault d f cs,
+  d < FreeSpace.U64 -> FreeSpace.initialize d = FreeSpace.FOk f ->
+  let st := FailPathProofs.fcalls fault (FailPath.finit f) cs in
+  forall st' r, FailPath.flush fault st = (st', r) ->
+  (r = FailPath.ROk -> FailPath.f_poison st' = false /\ FailPath.f_queue st' = []) /\
+  ((FailPath.f_queue st' = [] /\ exists pub, FailPath.f_durable st' = pub ++ FailPath.f_durable st /\
+      map fst pub = map FailPath.pe_id (FailPath.f_queue st)) \/
+   (r <> FailPath.ROk /\ FailPath.f_durable st' = FailPath.f_durable st /\
+      map FailPath.pe_id (FailPath.f_queue st') = map FailPath.pe_id (FailPath.f_queue st))) /\
+  (FailPath.f_poison st = true -> FailPath.f_poison st' = true /\ r <> FailPath.ROk) /\
+  (forall e, In e (FailPath.f_queue st) -> FailPath.pe_quar e = true -> FailPath.f_queue st' <> [] -> In e (FailPath.f_queue st'))
+
+(* extents that may hold bytes of a failed batch and have not been scrubbed are never free, hence
+   never handed to another record: a reservation is given back only clean or scrubbed *).
+Print Assumptions flush_is_honest_under_any_failures.
+
+Theorem unscrubbed_extents_are_never_free :
+  forall fault d f cs x b,
+  d < FreeSpace.U64 -> FreeSpace.initialize d = FreeSpace.FOk f ->
+  let st := FailPathProofs.fcalls fault (FailPath.finit f) cs in
+  In x (FailPath.f_maydata st) -> FailPathProofs.blk_in b x -> ~ FreeSpaceProofs.free (FailPath.f_fs st) b.
+Proof. exact FailPathProofs.unscrubbed_extents_are_never_free. Qed.
+Check unscrubbed_extents_are_never_free :
+  forall fault d f cs x b,
+  d < FreeSpace.U64 -> FreeSpace.initialize d = FreeSpace.FOk f ->
+  let st := FailPathProofs.fcalls fault (FailPath.finit f) cs in
+  In x (FailPath.f_maydata st) -> FailPathProofs.blk_in b x -> ~ FreeSpaceProofs.free (FailPath.f_fs st) b.
+Print Assumptions unscrubbed_extents_are_never_free.
+(* non-vacuity of the failure-handling theorems: three inserts on a 64-block device; the record
+   write fails three times (calls 2, 3, 4: the first pwrite of each attempt), the scrub goes through
+   and the second flush publishes everything; with call 5 failing too (the scrub's intent write) the
+   device is poisoned and the entries stay quarantined *)
+Example failed_batch_is_scrubbed_and_retried :
+  match FreeSpace.initialize 262144 with
+  | FreeSpace.FOk f =>
+      let cs := [FailPathProofs.CInsert 1 2; FailPathProofs.CInsert 2 1; FailPathProofs.CInsert 3 3; FailPathProofs.CFlush] in
+      let scrubbed := FailPathProofs.fcalls (fun i => (i =? 2) || (i =? 3) || (i =? 4)) (FailPath.finit f) cs in
+      let poisoned := FailPathProofs.fcalls (fun i => (i =? 2) || (i =? 3) || (i =? 4) || (i =? 5)) (FailPath.finit f) cs in
+      length (FailPath.f_queue scrubbed) = 3%nat /\ FailPath.f_poison scrubbed = false /\ FailPath.f_usage scrubbed = 0 /\
+      snd (FailPath.flush (fun _ => false) scrubbed) = FailPath.ROk /\
+      FailPath.f_poison poisoned = true /\ FailPath.f_usage poisoned = 6 /\
+      snd (FailPath.flush (fun _ => false) poisoned) = FailPath.RIndet
+  | FreeSpace.FErr _ => False
+  end.
+Proof. vm_compute. repeat split. Qed.
